@@ -219,6 +219,11 @@ def _discard_path(ctx):
     n = core.adopt(ctx, c02, lambda o: (o["rule"] == "C02.c" and any(k in o["key"] for k in ("discard", "run-path-always-replays", "detached-queue", "replays-element", "drop-only-after-run")))
                    or (o["rule"] == "C02.a" and any(k in o["key"] for k in ("single-disposition", "dispositions=", "abort-only"))), "C05.d")
     ctx.floor("C05.d", n, 8, "shared abort / discard obligations (C02.a, C02.c)")
+    # a postponed run releases the payload it was scheduled for, not a later one: the event trackers hand pending entries
+    # out in arrival order (shared with C03.e) - otherwise a payload is dropped while its own reader has yet to run
+    import c03
+    n = core.adopt(ctx, c03, lambda o: o["rule"] == "C03.e" and ("EventAccessTracker" in o["key"]), "C05.e")
+    ctx.floor("C05.e", n, 6, "shared claim-order obligations of the event trackers (C03.e)")
 
 
 def entity_from_spawn(body, op, spawn_block):
